@@ -27,10 +27,11 @@ Definition sadd (s t : Z) : Z := (s + t) mod M32.
 Record variant := mkVariant {
   v_lastseen : bool;  (* tcpassembly: connection.reset also resets lastSeen *)
   v_saved : bool;     (* reassembly: closeHalfConnection releases the saved (KeepFrom) pages *)
-  v_hpages : bool     (* reassembly: half.pages counts the saved pages too (as its comment says) *)
+  v_hpages : bool;    (* reassembly: half.pages counts the saved pages too (as its comment says) *)
+  v_limit : bool      (* tcpassembly: insertIntoConn pops pages until the limits hold (was: one page) *)
 }.
-Definition origv : variant := mkVariant false false false.
-Definition fixedv : variant := mkVariant true true true.
+Definition origv : variant := mkVariant false false false false.
+Definition fixedv : variant := mkVariant true true true true.
 
 (* callbacks, as observed by the streams.  sid: streams are numbered 1,2,... in the
    order StreamFactory.New is called. *)
